@@ -127,6 +127,46 @@ def sym_imec_meta(it, probe, band, with_maxint):
     return md, nap, nsy, rng, maxint, F
 
 
+def derive(it, fn, md, tag):
+    """run a derived-quantity reader on the parsed dictionary and state its frame: it reads the record and leaves it as parsed (same keys in the same order,
+    the same value objects, lists with the same entries) - what is written back later is then what was parsed"""
+    snap = [(k_, v_, list(v_) if isinstance(v_, list) else None) for k_, v_ in md.items()]
+    out = run_function(it, fn, [md])
+    same = list(md) == [k_ for k_, _, _ in snap] and all(md[k_] is v_ and (l_ is None or (len(v_) == len(l_) and all(a_ is b_ for a_, b_ in zip(v_, l_)))) for k_, v_, l_ in snap)
+    it.ctx.oblige(f"reads_only.{tag}", z3.BoolVal(same), "post", "deriving a quantity leaves the parsed dictionary untouched (no key added, removed or rewritten): parse -> write -> parse stays the identity "
+                  "whatever was derived in between", assume=False)
+    return out
+
+
+def native_derived_readers_leave_meta():
+    """every shipped metadata file: parse, derive everything, compare with a copy taken before; then write back and parse again"""
+    import copy
+    import glob
+    bad = []
+    fns = [n_ for n_ in dir(spikeglx) if n_.startswith("_") and n_.endswith("_from_meta")] + ["geometry_from_meta"]
+    d = tempfile.mkdtemp(prefix="c09_")
+    try:
+        for m in sorted(glob.glob(os.path.join(os.path.dirname(spikeglx.__file__), "tests", "fixtures", "**", "*.meta"), recursive=True)):
+            md = spikeglx.read_meta_data(m)
+            ref = copy.deepcopy(md)
+            for n_ in fns:
+                try:
+                    getattr(spikeglx, n_)(md)
+                except Exception:
+                    pass
+                if list(md) != list(ref) or any(repr(md[k_]) != repr(ref[k_]) for k_ in ref):
+                    bad.append({"file": os.path.basename(m), "reader": n_, "keys_added": [k_ for k_ in md if k_ not in ref][:4], "keys_changed": [k_ for k_ in ref if k_ in md and repr(md[k_]) != repr(ref[k_])][:4]})
+                    md = copy.deepcopy(ref)
+            out = os.path.join(d, "w.meta")
+            spikeglx.write_meta_data(md, out)
+            again = spikeglx.read_meta_data(out)
+            if list(again) != list(ref) or any(repr(again[k_]) != repr(ref[k_]) for k_ in ref):
+                bad.append({"file": os.path.basename(m), "parse_derive_write_parse_differs_on": [k_ for k_ in set(again) ^ set(ref)][:4] + [k_ for k_ in ref if k_ in again and repr(again[k_]) != repr(ref[k_])][:4]})
+    finally:
+        shutil.rmtree(d, ignore_errors=True)
+    return bad
+
+
 def replay_s2v(vals, oid):
     bad = native_s2v_cases(np.random.default_rng(3), 6)
     return {"failed": bool(bad), "examples": bad[:3]}
@@ -143,7 +183,7 @@ def h_s2v(H):
 
                 def body(it, probe=probe, band=band, with_maxint=with_maxint):
                     md, nap, nsy, rng, maxint, F = sym_imec_meta(it, probe, band, with_maxint)
-                    out = run_function(it, spikeglx._conversion_sample2v_from_meta, [md])
+                    out = derive(it, spikeglx._conversion_sample2v_from_meta, md, f"sample2v.{probe}.{band}.{with_maxint}")
                     mi = z3.ToReal(maxint) if with_maxint else z3.RealVal(512)
                     tag = f"{probe}.{band}.{'maxint' if with_maxint else 'default512'}"
                     c = z3.Int("c")
@@ -158,7 +198,7 @@ def h_s2v(H):
                 S.explore(body)
 
 
-@harness(PROPERTY, "sample2v_nidq", functions=["spikeglx:_conversion_sample2v_from_meta"], clause="nidq: MN / MA / XA / DW segments with their gains")
+@harness(PROPERTY, "sample2v_nidq", functions=["spikeglx:_conversion_sample2v_from_meta"], replay=lambda vals, oid: (lambda b: {"failed": bool(b), "cases": b[:4]})(native_derived_readers_leave_meta()), clause="nidq: MN / MA / XA / DW segments with their gains")
 def h_nidq(H):
     S = H.session("s2v.nidq")
 
@@ -168,7 +208,7 @@ def h_nidq(H):
         it.ctx.assume(z3.And(mn >= 0, ma >= 0, xa >= 0, dw >= 0, gmn > 0, gma > 0, rng > 0))
         md = {"typeThis": "nidq", "niMNGain": SV(gmn), "niMAGain": SV(gma), "niAiRangeMax": SV(rng),
               "snsMnMaXaDw": [SV(z3.ToReal(mn)), SV(z3.ToReal(ma)), SV(z3.ToReal(xa)), SV(z3.ToReal(dw))], "nSavedChans": SV(z3.ToReal(mn + ma + xa + dw))}
-        out = run_function(it, spikeglx._conversion_sample2v_from_meta, [md])
+        out = derive(it, spikeglx._conversion_sample2v_from_meta, md, "nidq.sample2v")
         v = out["nidq"]
         c = z3.Int("c")
         i2v = rng / 32768
@@ -181,7 +221,7 @@ def h_nidq(H):
         sy = run_function(it, spikeglx._get_sync_trace_indices_from_meta, [md]) if False else None
         an = run_function(it, spikeglx._get_analog_sync_trace_indices_from_meta, [dict(md, snsMnMaXaDw=[2.0, 1.0, 3.0, 1.0])])
         it.ctx.oblige("nidq.analog_indices", z3.BoolVal(an == [3, 4, 5]), "post", "analog sync lines follow the MN and MA channels")
-        it.ctx.oblige("nidq.type", z3.BoolVal(run_function(it, spikeglx._get_type_from_meta, [md]) == "nidq"), "post")
+        it.ctx.oblige("nidq.type", z3.BoolVal(derive(it, spikeglx._get_type_from_meta, md, "nidq.type") == "nidq"), "post")
         it.ctx.oblige("nidq.fs", z3.BoolVal(run_function(it, spikeglx._get_fs_from_meta, [dict(md, niSampRate=12345.5, imSampRate=1.0)]) == 12345.5), "post")
     S.explore(body)
 
@@ -251,7 +291,8 @@ def h_write_lists(H):
 def replay_scalars(vals, oid):
     """native: a 3B recording saved with and without its sync channel: sync count, full-scale range per channel"""
     if "range_volts" not in oid and "sync" not in oid:
-        return {"failed": False, "note": "no native replay for this obligation"}
+        bad = native_derived_readers_leave_meta()
+        return {"failed": bool(bad), "cases": bad[:4]}
     fixm = os.path.join(os.path.dirname(spikeglx.__file__), "tests", "fixtures", "sample3B_g0_t0.imec1.ap.meta")
     bad = []
     for nsy in (1, 0):
@@ -298,19 +339,19 @@ def h_scalars(H):
         for band in ("ap", "lf"):
             md = {"typeThis": "imec", "imSampRate": SV(fs), "niSampRate": 7.0, "nSavedChans": SV(z3.ToReal(nap + nsy)),
                   "snsApLfSy": [SV(z3.ToReal(nap)), 0.0, SV(z3.ToReal(nsy))] if band == "ap" else [0.0, SV(z3.ToReal(nap)), SV(z3.ToReal(nsy))]}
-            it.ctx.oblige(f"type.{band}", z3.BoolVal(run_function(it, spikeglx._get_type_from_meta, [md]) == band), "post")
-            it.ctx.oblige(f"fs.{band}", term(run_function(it, spikeglx._get_fs_from_meta, [md])) == fs, "post")
-            it.ctx.oblige(f"nc.{band}", term(run_function(it, spikeglx._get_nchannels_from_meta, [md])) == nap + nsy, "post")
+            it.ctx.oblige(f"type.{band}", z3.BoolVal(derive(it, spikeglx._get_type_from_meta, md, f"type.{band}") == band), "post")
+            it.ctx.oblige(f"fs.{band}", term(derive(it, spikeglx._get_fs_from_meta, md, f"fs.{band}")) == fs, "post")
+            it.ctx.oblige(f"nc.{band}", term(derive(it, spikeglx._get_nchannels_from_meta, md, f"nc.{band}")) == nap + nsy, "post")
         for nsync in (0, 1, 2):
             md = {"typeThis": "imec", "nSavedChans": SV(z3.ToReal(nap + nsync)), "snsApLfSy": [SV(z3.ToReal(nap)), 0.0, float(nsync)]}
-            idx = run_function(it, spikeglx._get_sync_trace_indices_from_meta, [md])
+            idx = derive(it, spikeglx._get_sync_trace_indices_from_meta, md, f"sync_indices.{nsync}")
             ok = isinstance(idx, list) and len(idx) == nsync
             it.ctx.oblige(f"sync_indices.{nsync}", z3.And(z3.BoolVal(ok), *[term(idx[k]) == nap + k for k in range(min(len(idx), nsync))]), "post", "sync traces are the last nsync saved channels")
-            it.ctx.oblige(f"analog_indices_imec.{nsync}", z3.BoolVal(run_function(it, spikeglx._get_analog_sync_trace_indices_from_meta, [md]) == []), "post")
+            it.ctx.oblige(f"analog_indices_imec.{nsync}", z3.BoolVal(derive(it, spikeglx._get_analog_sync_trace_indices_from_meta, md, f"analog_indices_imec.{nsync}") == []), "post")
         want = {"3A": ("3A", 1), "3B1": ("3B1", 1), "3B2": ("3B2", 1), "NP2.1": ("NP2.1", 2), "NP2.1b": ("NP2.1", 2), "NP2.4": ("NP2.4", 2.4), "NP2.4b": ("NP2.4", 2.4), "NPultra": ("NPultra", "NPultra")}
         for probe, md in PROBES.items():
-            v = run_function(it, spikeglx._get_neuropixel_version_from_meta, [dict(md)])
-            mv = run_function(it, spikeglx._get_neuropixel_major_version_from_meta, [dict(md)])
+            v = derive(it, spikeglx._get_neuropixel_version_from_meta, dict(md), f"version.{probe}")
+            mv = derive(it, spikeglx._get_neuropixel_major_version_from_meta, dict(md), f"major_version.{probe}")
             it.ctx.oblige(f"version.{probe}", z3.BoolVal(v == want[probe][0] and mv == want[probe][1]), "post")
         # 3B2 is told from 3B1 by the PRESENCE of the port / slot fields, whatever their values (port / slot numbers start at 0 on some rigs)
         port, slot = z3.Reals("imDatPrb_port imDatPrb_slot")
